@@ -1,16 +1,15 @@
 (* C08 — decoding is strict on required/type errors (proved for every schema),
-   accepts every valid document (proved for every well-formed schema:
-   C08_valid_accepted), and what it decodes a valid document to re-encodes to a
-   valid document that decodes to the same value again (C08_reencode_stable:
-   nothing the generated type holds is lost or altered by a decode / encode
-   cycle).  That the re-encoding is, member by member, the kept part of the
-   ORIGINAL document (numbers re-spelt, undeclared keys dropped where the
-   schema has no additionalProperties) is checked by the correspondence run,
-   not proved — partial. *)
+   accepts every valid document (C08_valid_accepted) and is lossless on them:
+   the decoded value re-encodes to [keep s j] (Spec/JsonSpec.v), the document
+   itself with its declared properties in schema order, its undeclared members
+   kept (in document order) exactly when the schema has additionalProperties,
+   and numbers / date-times re-spelt (C08_lossless).  The theorems are stated
+   for well-formed schemas of the dialect ([wf_sch], [dom_sch]); D28's shape
+   (an allOf member with additionalProperties of its own) is outside them. *)
 From Coq Require Import List ZArith.
 Import ListNotations.
 From Goag Require Import Base.Str Model.Params Model.Json Spec.JsonSpec
-     Proofs.JsonEncProofs Proofs.JsonRtProofs Proofs.JsonStrictProofs Proofs.JsonCompleteProofs Proofs.JsonStableProofs Model.OneOf Proofs.OneOfProofs.
+     Proofs.JsonEncProofs Proofs.JsonRtProofs Proofs.JsonStrictProofs Proofs.JsonCompleteProofs Proofs.JsonStableProofs Proofs.JsonKeepProofs Model.OneOf Proofs.OneOfProofs.
 
 (* a document that lacks a required property is rejected *)
 Theorem C08_missing_required : forall parse_num parse_time ms addl members k sf v,
@@ -94,3 +93,14 @@ Theorem C08_reencode_stable : forall fmt_float fmt_time parse_num parse_time,
                dec parse_num parse_time s j' = Ok v.
 Proof. exact reencode_stable. Qed.
 Print Assumptions C08_reencode_stable.
+
+(* lossless: the value a valid document decodes to re-encodes to the kept part
+   of THAT document (Spec/JsonSpec.v, [keep]): every declared property that is
+   present, under its own name, with its own (kept) value; every undeclared
+   member when the schema has additionalProperties; nothing else *)
+Theorem C08_lossless : forall fmt_float fmt_time parse_num parse_time s j,
+  wf_sch s -> dom_sch s -> validates parse_num parse_time s j = true ->
+  exists v, dec parse_num parse_time s j = Ok v /\
+            enc fmt_float fmt_time s v = Ok (keep fmt_float fmt_time parse_num parse_time s j [] false).
+Proof. exact lossless. Qed.
+Print Assumptions C08_lossless.
